@@ -79,23 +79,27 @@ pub fn unwrap_from_document_fragment(view: View) -> View {
 
 /// Create a shallow copy of a view by converting the nodes to web-sys and then converting them
 /// back.
-/// Re-collect the nodes of a mounted `view` from the DOM: every node from its first to its last
-/// node.
+/// The nodes from the first to the last of `nodes` as they are in the DOM now.
 ///
-/// The node list stored in a [`View`] goes stale when a dynamic view nested at its top level
-/// replaces the nodes between its markers; the first and the last node (markers, elements or
-/// text nodes) are never replaced.
-pub fn collect_live_nodes(view: View) -> View {
-    let nodes = view.as_web_sys();
+/// A stored node list goes stale when a dynamic view nested at its top level replaces the nodes
+/// between its markers; the first and the last node (markers, elements or text nodes) are never
+/// replaced. If the nodes are not mounted (or there are fewer than two), `nodes` is returned as is.
+pub fn live_nodes(nodes: &[web_sys::Node]) -> Vec<web_sys::Node> {
     let (Some(first), Some(last)) = (nodes.first(), nodes.last()) else {
-        return view;
+        return Vec::new();
     };
     if first == last || first.parent_node().is_none() || first.parent_node() != last.parent_node() {
-        return view;
+        return nodes.to_vec();
     }
     let mut live = vec![first.clone()];
     live.extend(get_nodes_between(first, last));
     live.push(last.clone());
+    live
+}
+
+/// Re-collect the nodes of a mounted `view` from the DOM (see [`live_nodes`]).
+pub fn collect_live_nodes(view: View) -> View {
+    let live = live_nodes(&view.as_web_sys());
     View::from_nodes(live.into_iter().map(HtmlNode::from_web_sys).collect())
 }
 
